@@ -18,7 +18,7 @@ ASSUMPTIONS = ["only specs with finite Z and rho_inf(J(x*)) <= 0.9 are judged (g
                "tolerance |g-g_ref| <= 1e-6*|g_ref| + 1e-8*(1+max|g_ref|)",
                "Log semiring: entries with log-weight -inf and start cells with Z=0 are excluded, as the statement says",
                "patterned weights: gradient is compared on the physically backed entries (weights.grad marks the rest with nan)"]
-ESSENTIAL_LABELS = ['recursive', 'shared-factor', 'unreachable-factor', 'patterned-weight', 'edge-on-external', 'kind:log', 'style:requires_grad_']
+ESSENTIAL_LABELS = ['dead-rule-first', 'recursive', 'shared-factor', 'unreachable-factor', 'patterned-weight', 'edge-on-external', 'kind:log', 'style:requires_grad_']
 KINDS = ['real', 'log']
 METHODS = ['fixed-point', 'newton', 'linear']
 
@@ -33,6 +33,24 @@ def cases(draw, tier):
     base = gen_fgg.specs(recursive=rec, weights=(0.0, 0.25, 0.5, 0.5, 1.0, 1.0, 2.0), max_nts=3, max_dom=2 if tier == 'quick' else 3,
                          max_edges=3, max_nodes=5)
     spec = draw(gen_fgg.patterned(base, weights=(0.0, 0.25, 0.5, 1.0, 2.0), p_bcast=0.0) if draw(st.booleans()) else base)
+    if spec['rules'] and draw(st.integers(0, 3)) == 0:
+        # inject a *dead* rule (sum-product zero because it uses an unproductive nonterminal of the same SCC) in front of the
+        # productive rules of some nonterminal X:   X -> D ... (first rule of X),   D -> X D (D's only rule)
+        X = draw(st.sampled_from(spec['rules']))['lhs']
+        tx = list(spec['nonterminals'][X])
+        spec['nonterminals']['D'] = []
+        deadX = {'lhs': X, 'nodes': list(tx), 'ext': list(range(len(tx))), 'edges': [{'label': 'D', 'att': []}]}
+        if spec['terminals'] and draw(st.booleans()):
+            t = draw(st.sampled_from(sorted(spec['terminals'])))
+            nodes = list(tx); att = []
+            for nl in spec['terminals'][t]['type']:
+                c = [j for j, l in enumerate(nodes) if l == nl]
+                if c: att.append(c[0])
+                else: nodes.append(nl); att.append(len(nodes) - 1)
+            deadX['nodes'] = nodes; deadX['edges'].append({'label': t, 'att': att})
+        deadD = {'lhs': 'D', 'nodes': list(tx), 'ext': [], 'edges': [{'label': X, 'att': list(range(len(tx)))}, {'label': 'D', 'att': []}]}
+        first = next(i for i, r in enumerate(spec['rules']) if r['lhs'] == X)
+        spec['rules'] = spec['rules'][:first] + [deadX] + spec['rules'][first:] + [deadD]
     n = 3 if tier == 'quick' else 6
     configs = [[draw(st.sampled_from(KINDS)), draw(st.sampled_from(METHODS)), draw(st.sampled_from(['leaf', 'requires_grad_']))] for _ in range(n)]
     ncot = 1
@@ -74,7 +92,7 @@ def check(case, ctx):
     shared = any(v >= 2 for v in uses.values())
     unreachable_factor = any(t not in used_reach for t in spec['terminals'])
     edge_on_ext = any(a in r['ext'] for r in spec['rules'] for e in r['edges'] for a in e['att'])
-    ctx.label('shared-factor' if shared else None, 'unreachable-factor' if unreachable_factor else None,
+    ctx.label('dead-rule-first' if 'D' in spec0['nonterminals'] else None, 'shared-factor' if shared else None, 'unreachable-factor' if unreachable_factor else None,
               'edge-on-external' if edge_on_ext else None)
     names = list(spec['terminals'])
     refs = {}
